@@ -356,7 +356,8 @@ class MessageManager(ClientLike):
 
         module.connected = True
 
-        if module.is_logger:
+        # Note: a failed write while logging above can already have removed this module
+        if module.is_logger and self.modules.get(module.conn) is module:
             self.logger_modules.add(module)
 
         return True
